@@ -27,49 +27,21 @@ def nontrivial(s, t, v):
 # scripted hooks in the real registry, every combination with always_continue / dry / kernelkill): run() answers ASYNC_PAUSED
 # exactly when it leaves an invocation outstanding.  Only that clause counts here; the hook clauses proper are C07's.
 
-def hook_scenarios(rng, tier):
-    from . import C07
-    n = {"quick": 1500, "thorough": 20000, "search": 4000}[tier]
-    for _ in range(n):
-        s = C07.gen_one(rng, tier)
-        s["prop"] = PROP
-        # always_continue is the interesting argument for the return value: make it frequent
-        if rng.random() < 0.5:
-            s["cfg"]["args"]["always_continue"] = "true"
-        yield s
+def _more_always_continue(rng, s):
+    # always_continue is the interesting argument for the return value: make it frequent
+    if rng.random() < 0.5:
+        s["cfg"]["args"]["always_continue"] = "true"
 
 
 def run(tier, seed, replay=None):
-    import json
-    import os
-    import random
     import sys
-    from .. import core
-    from . import C07
-    mod = sys.modules[__name__]
+    from . import _hookpass
 
-    def want(c):
-        return c.startswith("return_async_iff_hook_outstanding")
-    if replay:
-        rp = json.load(open(replay))
-        if rp.get("pass") == "hookret":
-            viol, _, _ = core.extra_pass(PROP, "hook", "h_hook", "asan", [rp["scenario"]], tier, seed, want=want, label="hookret")
-            for c, p in viol:
-                print("VIOLATION property=%s replay=%s" % (PROP, p))
-            return 1 if viol else 0
-        return core.run_check(mod, tier, seed, replay)
-    rc = core.run_check(mod, tier, seed, replay)
-    esc = tier == "quick" and core.changed_sources() and not os.environ.get("VERIF_NO_ESCALATION")
-    scs = list(hook_scenarios(random.Random(seed * 6007 + 17), "search" if esc else tier))
-    viol, cov, res = core.extra_pass(PROP, "hook", "h_hook", "asan", scs, tier, seed, want=want,
-                                     shrink_candidates=C07.shrink_candidates, label="hookret")
-    cov["hookret_pass_async_returns"] = sum(1 for s, t, v in res for r in t.get("runs", []) for tk in r.get("ticks", [])
-                                            if tk.get("ret") == "ASYNC_PAUSED")
-    cov["hookret_pass_always_continue"] = sum(1 for s, t, v in res if s["cfg"]["args"].get("always_continue") == "true")
-    core.merge_extra_into_evidence(PROP, cov, len(viol),
-                                   "return-value pass (kill plugins with scripted prekill hooks, h_hook): the C07 scenario space with "
-                                   "always_continue set in half of the scenarios; clause: run() returns ASYNC_PAUSED exactly when it "
-                                   "leaves a hook invocation outstanding")
-    for c, p in viol:
-        print("VIOLATION property=%s replay=%s" % (PROP, p))
-    return 1 if (rc or viol) else 0
+    def cov(res):
+        return {"hookret_pass_async_returns": sum(1 for s, t, v in res for r in t.get("runs", []) for tk in r.get("ticks", [])
+                                                  if tk.get("ret") == "ASYNC_PAUSED"),
+                "hookret_pass_always_continue": sum(1 for s, t, v in res if s["cfg"]["args"].get("always_continue") == "true")}
+    return _hookpass.run(sys.modules[__name__], tier, seed, replay, "return_async_iff_hook_outstanding", "hookret",
+                         "return-value pass (kill plugins with scripted prekill hooks, h_hook): the C07 scenario space with "
+                         "always_continue set in half of the scenarios; clause: run() returns ASYNC_PAUSED exactly when it "
+                         "leaves a hook invocation outstanding", tweak=_more_always_continue, extra_cov=cov)
